@@ -171,19 +171,23 @@ class TimeInterval:
 
     def intersection(self, other: TimeInterval) -> Optional[TimeInterval]:
         """Returns a TimeInterval common to both time intervals. Will return None if impossible"""
-        try:
-            return TimeInterval(max(self.start, other.start), min(self.end, other.end))
-        except ValueError:
+        if self.isdisjoint(other):
             return None
+
+        return TimeInterval(max(self.start, other.start), min(self.end, other.end))
 
     def isdisjoint(self, other: TimeInterval) -> bool:
         """Returns True if time intervals do not overlap."""
-        if self.is_instant or other.is_instant:
-            return self.end < other.start or self.start > other.end
+        if self.is_instant:
+            return self.start not in other
+        if other.is_instant:
+            return other.start not in self
         return self.end <= other.start or self.start >= other.end
 
     def issubset(self, other: TimeInterval) -> bool:
         """Returns True if time interval is contained entirely within other interval"""
+        if self.is_instant:
+            return self.start in other
         return (other.start <= self.start) and (self.end <= other.end)
 
     def issuperset(self, other: TimeInterval) -> bool:
